@@ -1,7 +1,7 @@
 (* C01 — addition and subtraction are exact for every operand length and carry pattern.
    Statements only; proofs live in proofs/AddSubProofs.v (generic in the parameters) and
    are instantiated at the parameters extracted from /repo's current source. *)
-From BigNum Require Import Base BaseLemmas X86 AddSub SpecAddSub AddSubProofs Extracted InstAddSub.
+From BigNum Require Import Base BaseLemmas X86 AddSub SpecAddSub AddSubProofs AsmProofs Extracted InstAddSub.
 Open Scope Z_scope.
 
 Theorem C01_uadd : forall a b, canon a -> canon b ->
@@ -47,6 +47,35 @@ Theorem C01_isub : forall x y, icanon x -> icanon y ->
   isub addsub x y = omap ienc (spec_isub (ival x) (ival y)).
 Proof. intros; apply isub_spec; auto using addsub_params_ok. Qed.
 Print Assumptions C01_isub.
+
+(* The inline-asm loop as written in the source (template re-extracted on every run), run
+   under the x86 fragment semantics, computes the list function the model uses, for every
+   block count; it leaves b untouched and accesses only cells below 5*(size/5). *)
+Theorem C01_asm_add : forall a b size, wf a -> wf b ->
+  0 <= size <= Z.of_nat (length a) -> size <= Z.of_nat (length b) -> size < B -> 1 <= size / ap_blk addsub ->
+  let K := size / ap_blk addsub in
+  let '(s', ok) := run (Z.to_nat K) (ap_add_prog addsub) (init_state (mem_of a) (mem_of b) K) in
+  ok = true /\
+  schoolbook adc_zip (ap_blk addsub) a b size = Ret (seg (ma s') 0 (length a), rg s' Rc, rg s' Ridx) /\
+  (forall j, mb s' j = mem_of b j) /\
+  Forall (acc_ok (5 * K)) (tr s').
+Proof.
+  destruct (addsub_ok_inv addsub addsub_params_ok) as (-> & -> & _ & _). exact asm_add_correct.
+Qed.
+Print Assumptions C01_asm_add.
+
+Theorem C01_asm_sub : forall a b size, wf a -> wf b ->
+  0 <= size <= Z.of_nat (length a) -> size <= Z.of_nat (length b) -> size < B -> 1 <= size / ap_blk addsub ->
+  let K := size / ap_blk addsub in
+  let '(s', ok) := run (Z.to_nat K) (ap_sub_prog addsub) (init_state (mem_of a) (mem_of b) K) in
+  ok = true /\
+  schoolbook sbb_zip (ap_blk addsub) a b size = Ret (seg (ma s') 0 (length a), rg s' Rc, rg s' Ridx) /\
+  (forall j, mb s' j = mem_of b j) /\
+  Forall (acc_ok (5 * K)) (tr s').
+Proof.
+  destruct (addsub_ok_inv addsub addsub_params_ok) as (-> & _ & -> & _). exact asm_sub_correct.
+Qed.
+Print Assumptions C01_asm_sub.
 
 (* Non-vacuity: canonical multi-digit operands exist and exercise the carry into a new digit. *)
 Example C01_nonvacuous :
